@@ -77,7 +77,7 @@ def check(run, replay):
                          "property evaluation: every one of these runs, on the printed findings.")
 
     vlib.ensure_repo_build()
-    ok = run.prove()
+    ok = run.prove(extra_targets=["theories/Supp/RunExec.vo"])
     model = vlib.build_model(PID) if ok or os.path.exists(os.path.join(vlib.COQ, "theories/Supp/RunExec.vo")) else None
     if not ok:
         run.violation("proof:" + PID, "Properties_C25.vo does not build: " + str(run.proof_error())[:300],
